@@ -19,6 +19,7 @@ import (
 	"go/ast"
 	"go/token"
 	"go/types"
+	"strings"
 )
 
 // InlInfo describes where an inlined node comes from.
@@ -98,11 +99,22 @@ func (f *Flat) inline(stack map[string]bool, depth int) {
 	if depth <= 0 {
 		return
 	}
-	n0 := len(f.Nodes)
+	// chain of callee keys through which a node was spliced in (recursion guard and depth bound); nodes of the
+	// original graph have the chain of the caller's own stack
+	base := ""
+	for k := range stack {
+		base += k + ">"
+	}
+	chain := map[int]string{}
 	changed := false
-	for id := 0; id < n0; id++ {
+	splices := 0
+	for id := 0; id < len(f.Nodes) && splices < 200; id++ {
 		N := f.Nodes[id]
 		if N.Ast == nil {
+			continue
+		}
+		ch := chain[id]
+		if strings.Count(ch, ">") >= depth {
 			continue
 		}
 		call, form := inlinableCall(N.Ast)
@@ -127,10 +139,27 @@ func (f *Flat) inline(stack map[string]bool, depth int) {
 			continue
 		}
 		callee := f.P.staticCallee(f.Pkg, call)
-		if callee == nil || callee.Pkg != f.Pkg || stack[callee.Key] || callee.Sig().Variadic() {
+		if callee == nil {
+			// a call of a function-typed parameter that an enclosing splice bound to a function literal:
+			// r.write(func(s) {...}) with write's "return fn(r.storage)"
+			if o := objOf(f.Pkg.TypesInfo, call.Fun); o != nil && f.Alias != nil {
+				if lit, ok := ast.Unparen(f.Alias[o]).(*ast.FuncLit); ok {
+					sig, _ := f.Pkg.TypesInfo.Types[lit].Type.(*types.Signature)
+					callee = &FuncInfo{Key: "lit@" + f.P.pos(lit), Pkg: f.Pkg, Lit: lit, LitSig: sig}
+				}
+			}
+		}
+		if callee == nil || callee.Pkg != f.Pkg || callee.Sig() == nil || callee.Sig().Variadic() {
 			continue
 		}
-		defers, ok := topLevelDefers(f.Pkg.TypesInfo, callee.Decl.Body)
+		if strings.Contains(base+ch, callee.Key+">") {
+			continue
+		}
+		body := callee.body()
+		if body == nil {
+			continue
+		}
+		defers, ok := topLevelDefers(f.Pkg.TypesInfo, body)
 		if !ok {
 			continue
 		}
@@ -138,13 +167,15 @@ func (f *Flat) inline(stack map[string]bool, depth int) {
 		if cf == nil || len(cf.Nodes) == 0 {
 			continue
 		}
-		stack[callee.Key] = true
-		cf.inline(stack, depth-1)
-		delete(stack, callee.Key)
 		if form == 4 && callee.Sig().Results().Len() != 1 {
 			continue
 		}
+		before := len(f.Nodes)
 		f.splice(N, call, form, negated, callee, cf, defers)
+		for k := before; k < len(f.Nodes); k++ {
+			chain[k] = ch + callee.Key + ">"
+		}
+		splices++
 		changed = true
 	}
 	if changed {
@@ -157,6 +188,25 @@ func (f *Flat) inline(stack map[string]bool, depth int) {
 			}
 		}
 	}
+}
+
+// body returns the body of a declared function or of the literal a pseudo entry stands for.
+func (fi *FuncInfo) body() *ast.BlockStmt {
+	if fi.Lit != nil {
+		return fi.Lit.Body
+	}
+	if fi.Decl == nil {
+		return nil
+	}
+	return fi.Decl.Body
+}
+
+// funcType returns the syntax of the signature (parameters / results) and the receiver list.
+func (fi *FuncInfo) funcType() (*ast.FuncType, *ast.FieldList) {
+	if fi.Lit != nil {
+		return fi.Lit.Type, nil
+	}
+	return fi.Decl.Type, fi.Decl.Recv
 }
 
 func (f *Flat) splice(N *GNode, call *ast.CallExpr, form int, negated bool, callee *FuncInfo, cf *Flat, defers []*ast.DeferStmt) {
@@ -198,7 +248,8 @@ func (f *Flat) splice(N *GNode, call *ast.CallExpr, form int, negated bool, call
 	var lhs []ast.Expr
 	var rhs []ast.Expr
 	reassigned := map[types.Object]bool{}
-	ast.Inspect(callee.Decl.Body, func(x ast.Node) bool {
+	ftype, frecv := callee.funcType()
+	ast.Inspect(callee.body(), func(x ast.Node) bool {
 		for _, o := range assignedObjs(info, x) {
 			reassigned[o] = true
 		}
@@ -217,7 +268,7 @@ func (f *Flat) splice(N *GNode, call *ast.CallExpr, form int, negated bool, call
 		rhs = append(rhs, arg)
 		if o := info.Defs[id]; o != nil && !reassigned[o] {
 			switch ast.Unparen(arg).(type) {
-			case *ast.Ident, *ast.SelectorExpr:
+			case *ast.Ident, *ast.SelectorExpr, *ast.FuncLit:
 				f.Alias[o] = arg
 			case *ast.UnaryExpr:
 				if u := ast.Unparen(arg).(*ast.UnaryExpr); u.Op == token.AND {
@@ -227,11 +278,11 @@ func (f *Flat) splice(N *GNode, call *ast.CallExpr, form int, negated bool, call
 		}
 	}
 	args := argExprs(call, callee)
-	if callee.Decl.Recv != nil && len(callee.Decl.Recv.List) == 1 && len(callee.Decl.Recv.List[0].Names) == 1 {
-		bind(callee.Decl.Recv.List[0].Names[0], args[-1])
+	if frecv != nil && len(frecv.List) == 1 && len(frecv.List[0].Names) == 1 {
+		bind(frecv.List[0].Names[0], args[-1])
 	}
 	i := 0
-	for _, fl := range callee.Decl.Type.Params.List {
+	for _, fl := range ftype.Params.List {
 		if len(fl.Names) == 0 {
 			i++
 			continue
@@ -254,8 +305,8 @@ func (f *Flat) splice(N *GNode, call *ast.CallExpr, form int, negated bool, call
 	N.IsCond = false
 	// named results (for bare returns)
 	var named []ast.Expr
-	if callee.Decl.Type.Results != nil {
-		for _, fl := range callee.Decl.Type.Results.List {
+	if ftype.Results != nil {
+		for _, fl := range ftype.Results.List {
 			for _, nm := range fl.Names {
 				named = append(named, nm)
 			}
